@@ -177,35 +177,65 @@ theorem loop_fuel_enough (env : Env) (rr : Option Round) (m : Machine) (acc : Li
   loop_fuel_enough' env rr m acc
 
 /-- **Exec refines Abstract, step 1**: every disciplined run of the executable machine is a chain
-of micro-steps (`XMicro`), each of which is one of: nothing visible to the algorithm (bookkeeping,
-WAL, timers), a proposal, start of a height, a move to a higher round, a prevote under the guard of
-lines 22–33, a nil precommit, a precommit of a value under the guard of line 36, a commit under the
-guard of line 49 — with the guards evaluated on the machine's own vote counter. -/
+of micro-steps (`XMicro`), each of which is one of: nothing visible to the algorithm (WAL, timers),
+storing a received message in the vote counter, a proposal, start of a height, a move to a higher
+round, a prevote under the guard of lines 22–33, a nil precommit, a precommit of a value under the
+guard of line 36, a commit under the guard of line 49 — guards evaluated on the machine's own vote
+counter, and the change of the vote counter stated exactly. -/
 theorem exec_run_is_micro_chain (env : Env) (node : Addr) (h0 : Height) (ins : List Input)
     (hd : Disciplined env (Machine.new env node h0) ins) :
-    XChain env (Machine.new env node h0) ((Machine.new env node h0).run env ins).2
+    XChain env AnyMsg (Machine.new env node h0) ((Machine.new env node h0).run env ins).2
       ((Machine.new env node h0).run env ins).1 :=
-  (run_chain env ins _ (new_MInv env node h0) hd).1
+  (run_chain (A := AnyMsg) env (fun _ => trivial) ins _ (new_MInv env node h0) hd).1
 
-/-- **Exec refines Abstract, step 2** (partial: `VCSound` is a hypothesis). Every micro-step of the
-machine of a correct validator `p = m.nodeAddr` is a transition of `p` in the abstract system (or
-leaves the abstract state unchanged), keeps `p`'s abstract local state equal to the machine's
-Tendermint variables, does not touch other processes, and records every broadcast / decision in the
-global history — provided the vote counter is sound w.r.t. the global history (`VCSound`: quorums
-it reports are quorums of sent-or-Byzantine messages, stored proposals were sent or come from a
-Byzantine proposer).
-MISSING for the unconditional statement: deriving `VCSound` from the ballot bookkeeping of
-`votecounter` (tally = sum of the powers of the DISTINCT senders of the matching received votes;
-power 0 for non-validators) and from authenticity of the network. The harness checks exactly this
-at run time with independent bookkeeping (`precommit-without-prevote-quorum`,
-`commit-without-precommit-quorum`, `prevote-against-lock`). -/
-theorem exec_refines_abstract_partial (E : AEnv) (env : Env) (s : Sys) (m m' : Machine) (a : List Action)
-    (hv : E.valid = env.valid) (hp : E.proposer = env.proposer)
-    (hb : ¬ E.byz m.nodeAddr) (hloc : s.loc m.nodeAddr = absL m)
-    (hsound : VCSound E s m) (hm : XMicro env m a m') (sc : SC m m') (hr : 0 ≤ m'.state.round) :
-    ∃ s', (s' = s ∨ Abs.Step E s s') ∧ s'.loc m.nodeAddr = absL m' ∧ m'.nodeAddr = m.nodeAddr ∧
-      (∀ q, q ≠ m.nodeAddr → s'.loc q = s.loc q) ∧ s.hist.le s'.hist ∧ Recorded a m.nodeAddr s'.hist :=
-  micro_refines E env s m m' a hv hp hb hloc hsound hm sc hr
+/-- **The vote counter is sound.** If every ballot and proposal in the machine's vote counter is
+justified by the global history (`Sim.just`: its sender is Byzantine or really sent it), then every
+quorum the vote counter reports is a quorum of the global history in the sense of `Abstract`
+(tally = power of the DISTINCT senders ≤ weight of the justified validators), and stored proposals
+were sent or come from a Byzantine proposer. Needs `EnvOK`: same powers/proposer/validity, validator
+list without duplicates, power 0 outside it, total power = sum < 2^63 (no wrap in `q`). -/
+theorem vote_counter_sound (E : AEnv) (env : Env) (ok : EnvOK E env) (wf : E.WF) (s : Sys) (m : Machine)
+    (hsim : Sim E env s m) : VCSound E s m :=
+  Sim_sound E env ok wf s m hsim
+
+/-- **Exec refines Abstract.** Let `m` be the executable machine of a correct validator, related to
+the abstract system state `s` by `Sim` (abstract local state = the machine's Tendermint variables;
+vote counter justified by the history). For every input `i` that obeys the driver's discipline
+(`InputOK`) and is authentic (`AuthC`: a message from a correct sender was really sent by it — the
+network may delay, drop, duplicate and reorder, Byzantine senders may send anything), the machine's
+step is matched by finitely many transitions of THAT validator in the abstract system: the
+simulation holds again, no other process is touched, the history only grows, and every proposal,
+prevote, precommit and commit the machine emitted is recorded in the history. -/
+theorem exec_refines_abstract (E : AEnv) (env : Env) (ok : EnvOK E env) (wf : E.WF) (s : Sys)
+    (m : Machine) (i : Input) (hb : ¬ E.byz m.nodeAddr) (hsim : Sim E env s m) (hok : InputOK m i)
+    (hauth : ∀ c, RecvOf i c → AuthC E s.hist c) :
+    ∃ s', Steps E s s' ∧ Sim E env s' (m.step env i).1 ∧ (m.step env i).1.nodeAddr = m.nodeAddr ∧
+      (∀ q, q ≠ m.nodeAddr → s'.loc q = s.loc q) ∧ s.hist.le s'.hist ∧
+      Recorded (m.step env i).2 m.nodeAddr s'.hist :=
+  step_sim E env ok wf s m i hb hsim hok hauth
+
+/-- The simulation holds initially, and is preserved by whatever the rest of the system does. -/
+theorem exec_refines_abstract_init_and_frame (E : AEnv) (env : Env) (h0 : Addr → Height) (p : Addr) :
+    Sim E env (Sys.init h0) (Machine.new env p (h0 p)) ∧
+    ∀ (s s' : Sys) (m : Machine), Sim E env s m → s.hist.le s'.hist →
+      s'.loc m.nodeAddr = s.loc m.nodeAddr → Sim E env s' m :=
+  ⟨Sim_init E env h0 p, fun s s' m h1 h2 h3 => Sim_stable E env s s' m h1 h2 h3⟩
+
+/-- **Agreement for the executable machine.** In a reachable state of the system, when the machine
+of a correct validator (simulation relation, disciplined authentic input) commits proposal `q`, the
+resulting system state is reachable and EVERY decision of EVERY correct process recorded for that
+height — by this or any other machine, earlier or in this step — is for `q`'s value. -/
+theorem exec_commit_agrees (E : AEnv) (env : Env) (ok : EnvOK E env) (wf : E.WF) (h0 : Addr → Height)
+    (s : Sys) (hr : Reach E h0 s) (m : Machine) (i : Input) (hb : ¬ E.byz m.nodeAddr)
+    (hsim : Sim E env s m) (hok : InputOK m i) (hauth : ∀ c, RecvOf i c → AuthC E s.hist c)
+    (q : Proposal) (hq : Action.commit q ∈ (m.step env i).2) :
+    ∃ s', Reach E h0 s' ∧ Sim E env s' (m.step env i).1 ∧ s'.hist.decision m.nodeAddr q.height q.value ∧
+      ∀ p' v', ¬ E.byz p' → s'.hist.decision p' q.height v' → v' = q.value := by
+  obtain ⟨s', hsteps, hsim', _, _, _, hrec⟩ := step_sim E env ok wf s m i hb hsim hok hauth
+  have hr' := Reach_steps E h0 s s' hr hsteps
+  have hd : s'.hist.decision m.nodeAddr q.height q.value := hrec _ hq
+  exact ⟨s', hr', hsim', hd, fun p' v' hp' hd' =>
+    agreement_of_inv E wf s' (inv_reach E h0 s' hr') p' m.nodeAddr hp' hb q.height v' q.value hd' hd⟩
 
 /-! ## non-vacuity -/
 
@@ -220,6 +250,9 @@ example : Action.bcastPrevote ⟨1, 0, 1, some 400⟩ ∈ ((Machine.new exEnv 1 
 -- the hypotheses of `agreement` are satisfiable, and a decision is reachable
 example : E4.WF := E4_wf
 example : ∃ s, Reach E4 (fun _ => 0) s ∧ s.hist.decision 0 0 8 := E4_run_decides
+-- the hypotheses of `exec_refines_abstract` are satisfiable: matching environments, initial simulation
+example : EnvOK E4 env4 := env4_ok
+example : Sim E4 env4 (Sys.init (fun _ => 0)) (Machine.new env4 1 0) := Sim_init E4 env4 (fun _ => 0) 1
 -- thresholds
 example : fN 4 = 1 ∧ qN 4 = 3 ∧ fN 7 = 2 ∧ qN 7 = 5 ∧ fN 10 = 3 ∧ qN 10 = 7 := by decide
 
